@@ -48,7 +48,29 @@ class _SweepBase(Contract):
             sw.QI = mk.matrix('L.QI', M + 1, M + 1, lower)
         if self.has_QE:
             sw.QE = mk.matrix('L.QE', M + 1, M + 1, strictly_lower0)
+        if inst.get('earlier_use'):
+            # history: the SAME sweeper object has swept before, on other data, with another step size and time (it is pointed at a second
+            # level for that sweep and back again); nothing scaled with that earlier step size or taken from those data may survive in it
+            H = make_level(cls, inst['M'], mk, kind=self.kind, tau=inst.get('tau', False), quad=inst.get('quad', 'RADAU-RIGHT'),
+                           do_coll_update=inst.get('coll_update'), name='H')
+            sw.level = H
+            try:
+                sw.update_nodes()
+                try:
+                    sw.compute_end_point()
+                except NotImplementedError:
+                    pass  # the mass-matrix sweeper refuses the quadrature end point by design (its own contract)
+            finally:
+                sw.level = L
         return L
+
+    history_instances = True
+
+    def all_instances(self, tier):
+        out = list(self.instances(tier))
+        if self.history_instances and type(self).mk_level is _SweepBase.mk_level:
+            out += [dict(i, earlier_use=True) for i in out if i.get('M', 9) <= 2 and 'earlier_use' not in i]
+        return out
 
     def snapshot(self, st):
         st.old_u = [cp(u) for u in st.L.u]
